@@ -51,7 +51,10 @@ class GNet(nn.Module):
             elif op == 'relu':
                 r = F.relu(v[ins[1]])
             elif op == 'add':
-                r = v[ins[1]] + v[ins[2]]
+                form = ins[3] if len(ins) > 3 else None      # the residual sum written in several ways
+                a_, b_ = v[ins[1]], v[ins[2]]
+                r = (a_ + b_ if form is None else a_ - b_ if form == 'sub' else torch.add(a_, b_) if form == 'tadd'
+                     else torch.sub(a_, b_) if form == 'tsub' else torch.add(a_, b_, alpha=2))
             elif op == 'cat':
                 ts = [v[j] for j in ins[1]]
                 var = ins[2] if len(ins) > 2 else None      # the features axis named in three ways
@@ -183,7 +186,9 @@ def gen_program(rng, dim, opts=None):
         elif r < .65:
             if not b.taint[cur]:   # residual: branch keeps channels and size
                 br = b.conv(cur, cout=b.ch[cur], keep_size=True, k_choices=[1, 3])
-                cur = b.add(('add', cur, br) if rng.random() < .5 else ('add', br, cur), b.ch[cur], b.sp[cur])
+                form = None if o.get('unit') else rng.choice([None, None, 'sub', 'tadd', 'tsub', 'alpha'])
+                ab = (cur, br) if rng.random() < .5 else (br, cur)
+                cur = b.add(('add',) + ab if form is None else ('add',) + ab + (form,), b.ch[cur], b.sp[cur])
             else:
                 cur = b.conv(cur)
         elif r < .85:   # channel concat with up to 2 earlier tensors of the same size
